@@ -12,6 +12,9 @@ E2: SymbolTable.tla - the compiler's symbol table (the component that decides wh
    live variables of a function in one slot, frames large enough, global slots never reused,
    free lists the enclosing function can serve); TLC prints one witness history per edge.
 R2: every witness history replayed on a real tengo.SymbolTable, every return value compared.
+R3: the other direction - hooks report every Define/Resolve/assignment mark the compiler makes and what it reads when a
+   function literal ends; SymbolTableTrace.tla replays each compilation unit with the spec's operators (scope exits are
+   silent steps), compares every logged result and symbol identity, and evaluates the invariants in every state reached.
 R: every variant through the real compiler and VM: its outcome must be one TengoSem allows for it,
    hence all placements (globals / locals / captured variables / module locals) agree with each
    other.  The probe counts which variable-instruction families each variant exercised.
@@ -21,6 +24,7 @@ import json
 import c06
 import semcmp
 import largelib
+import symtracelib
 import semlib
 import vlib
 
@@ -107,6 +111,16 @@ def run(ck):
     ck.extra["bases"] = len(groups)
     ck.extra["variants_agreeing"] = fam_counts
     symtab(ck, quick)
+    # ---- the compiler's own use of the symbol table, recorded by hooks while it compiles programs, validated against SymbolTable.tla
+    tp = []
+    for fam, k in ((("scopes", 70), ("random", 50), ("modules", 12), ("m-closure", 0)) if quick
+                   else (("scopes", 1500), ("random", 1500), ("modules", 300), ("m-closure", 0), ("tailcalls", 0), ("variants", 60))):
+        for p in semlib.generate(ck, fam, k):
+            p = dict(p)
+            p["id"] = len(tp) + 1
+            tp.append(p)
+    ck.extra["symtab_trace_programs"] = len(tp)
+    symtracelib.validate(ck, tp)
     # placement in slots whose index needs more than one byte (more than 255 globals, also as block variables)
     largelib.judge(ck, quick)
     ck.rule = ("base programs (random-clean without closures in global loops, dce) x {function body, module body, IIFE of 3 random "
